@@ -160,3 +160,37 @@ def generate_c02(repo):
     return header, [(TRANSFORM_GRAD.qual, str(e))]
   except (OSError, SyntaxError) as e:
     return header, [(TRANSFORM_GRAD.qual, repr(e))]
+
+
+# ---------------------------------------------------------------------------------------------
+# C01: the coupled Newton loop of matrix_inverse_pth_root (nested closures of the routine)
+# ---------------------------------------------------------------------------------------------
+NEWTON_STATE = "Z * mat * mat * mat * Q * Q"
+NEWTON_BODY = Fn(
+    "matrix_inverse_pth_root._iter_body", "newton_iter_body",
+    [("alpha", "Q"), ("identity", "mat"), ("p", "positive"), ("state", NEWTON_STATE)],
+    "Z * (list (list Q)) * (list (list Q)) * (list (list Q)) * Q * Q",
+    calls={"mat_power": ("mpow_pos", "mat")})
+NEWTON_COND = Fn(
+    "matrix_inverse_pth_root._iter_condition", "newton_iter_condition",
+    [("num_iters", "Z"), ("error_tolerance", "Q"), ("max_error_ratio", "Q"), ("state", NEWTON_STATE)],
+    "bool")
+
+
+def generate_c01(repo):
+  from tools import py2v, py2v_float
+  header = ("From Precond Require Import Base.PyLib Base.QMat Base.PyFloat.\nOpen Scope Q_scope.\n")
+  out, errors = [header], []
+  try:
+    src = open(os.path.join(repo, DS)).read()
+  except OSError as e:
+    return header, [("read", repr(e))]
+  for fn in (NEWTON_BODY, NEWTON_COND):
+    try:
+      out.append(py2v_float.translate(src, fn))
+      out.append("")
+    except py2v.TranslationError as e:
+      errors.append((fn.qual, str(e)))
+    except SyntaxError as e:
+      errors.append((fn.qual, repr(e)))
+  return "\n".join(out), errors
